@@ -286,6 +286,20 @@ type Shape struct {
 	Holes   *[]Vtx
 }
 
+// Vers holds same-named types of two same-named packages, one with methods.
+type Vers struct {
+	A ext.Ver
+	B ext2.Ver
+	L []ext2.Ver
+}
+
+// SameName holds a type of an imported package that is named like this one.
+type SameName struct {
+	I p.Item
+	P *p.Item
+	L []p.Item
+}
+
 // Anon has anonymous struct fields (Equal, Hash and GoString take them; Compare
 // and DeepCopy refuse them with a diagnostic).
 type Anon struct {
@@ -386,6 +400,27 @@ type Win struct {
 	Label  string
 }
 
+// Blank has a blank field and no other unexported one; Sess has a blank
+// field in front of its unexported ones.
+type Blank struct {
+	A int
+	_ struct{}
+	B []string
+}
+
+type Sess struct {
+	ID           int
+	_            int32
+	hits, expiry int64
+	Tags         []string
+}
+
+// Ver has no methods; the Ver of the other package named ext declares Equal and Compare.
+type Ver struct {
+	Major int
+	Note  string
+}
+
 type pointA struct{ X, Y int }
 
 // PointA can be named from outside, its target cannot.
@@ -399,11 +434,39 @@ type Pub struct {
 	L []int
 }
 
+// Ver compares by Major only (pkg ext's Ver has no methods).
+type Ver struct {
+	Major int
+	Note  string
+}
+
+func (v Ver) Equal(o Ver) bool { return v.Major == o.Major }
+
+func (v Ver) Compare(o Ver) int {
+	switch {
+	case v.Major < o.Major:
+		return -1
+	case v.Major > o.Major:
+		return 1
+	}
+	return 0
+}
+
 // Pt shares its printed name with the assignment-copyable ext.Pt of the
 // other package named ext, but holds references.
 type Pt struct {
 	P *int
 	Q []int
+}
+`
+
+// sameSrc lives at example.com/v/same/p and declares package p, like the package that imports it.
+const sameSrc = `package p
+
+type Item struct {
+	A int
+	s []string
+	L []int
 }
 `
 
@@ -443,6 +506,10 @@ func structTys() []*Ty {
 		mk("Anon", false, "anon"),
 		mk("Und", false, "unexported", "localpriv"),
 		mk("Twin", false),
+		mk("ext.Blank", false, "ext"),
+		mk("ext.Sess", false, "ext", "unexported", "extpriv"),
+		mk("Vers", false, "ext", "ext2", "user"),
+		mk("SameName", false, "ext", "unexported", "extpriv", "samename"),
 		mk("KeyMaps", false),
 		mk("Units", false),
 		mk("Shape", false),
